@@ -371,13 +371,17 @@ func alphabet(cfg Cfg, grace int) []Ev {
 // explore: breadth-first over event sequences; a sequence is extended only if it reached an
 // implementation-state fingerprint not seen before. Every executed sequence is a case, so every
 // (fingerprint-distinct state reachable within depth, event) transition is checked.
-func explore(cfg Cfg, depth int, limit int) []vh.Case {
+func explore(cfg Cfg, depth int, seeds []string) []vh.Case {
 	alpha := alphabet(cfg, 3)
 	seen := map[string]bool{}
-	frontier := [][]Ev{{}}
-	{
-		_, fp := run(Case{Cfg: cfg})
-		seen[fp] = true
+	var frontier [][]Ev
+	for _, sd := range append([]string{""}, seeds...) {
+		p := parseEvs(sd)
+		_, fp := run(Case{Cfg: cfg, Evs: p})
+		if !seen[fp] {
+			seen[fp] = true
+			frontier = append(frontier, p)
+		}
 	}
 	var out []vh.Case
 	for d := 1; d <= depth && len(frontier) > 0; d++ {
@@ -391,14 +395,18 @@ func explore(cfg Cfg, depth int, limit int) []vh.Case {
 					seen[fp] = true
 					next = append(next, seq)
 				}
-				if limit > 0 && len(out) >= limit {
-					return out
-				}
 			}
 		}
 		frontier = next
 	}
 	return out
+}
+
+// exploration also starts from these deeper states (timer due, execution outstanding, failed over,
+// failback pending, failback timer due, failback outstanding)
+var seedPrefixes = []string{
+	"down adv10", "down adv10 firefo", "down adv10 firefo cb0ok", "down adv10 firefo cb0ok up",
+	"down adv10 firefo cb0ok up adv12", "down adv10 firefo cb0ok up adv12 firefb", "down adv10 up down",
 }
 
 func genRandom(r *vh.Rng, maxLen int) Case {
@@ -429,6 +437,9 @@ func genRandom(r *vh.Rng, maxLen int) Case {
 		default:
 			evs = append(evs, alpha[r.Intn(len(alpha))])
 		}
+	}
+	if cfg.Delay == 10 && cfg.FbDelay == 12 && r.Chance(1, 2) {
+		evs = append(parseEvs(seedPrefixes[r.Intn(len(seedPrefixes))]), evs...)
 	}
 	// drop zero advances
 	var o []Ev
@@ -504,6 +515,10 @@ func genGuarded(r *vh.Rng, maxLen int) Case {
 			evs = append(evs, Ev{K: "adv", D: d})
 		}
 	}
+	if cfg.Delay == 10 && cfg.FbDelay == 12 && r.Chance(1, 2) {
+		evs = parseEvs([]string{"down adv10 firefo cb0ok", "down adv10 firefo cb0ok up", "down adv10 firefo cb0ok up adv12", "down adv10"}[r.Intn(4)])
+		n += len(evs)
+	}
 	for len(evs) < n {
 		switch x := r.Intn(20); {
 		case x < 4:
@@ -569,16 +584,16 @@ func main() {
 	if len(corpus) > 0 {
 		vh.Emit(cfg, "corpus", header, footer, corpus, nil)
 	}
-	depth, nrand, maxLen := 4, 200, 16
+	depth, nrand, maxLen := 2, 200, 16
 	if cfg.Thorough() {
-		depth, nrand, maxLen = 6, 3000, 40
+		depth, nrand, maxLen = 5, 2500, 40
 	}
 	std := Cfg{Delay: 10, FbDelay: 12, FbEnabled: true, Orig: "standby"}
-	ex := explore(std, depth, 0)
-	ex = append(ex, explore(Cfg{Delay: 10, FbDelay: 12, FbEnabled: false, Orig: "standby"}, depth-1, 0)...)
-	ex = append(ex, explore(Cfg{Delay: 10, FbDelay: 12, FbEnabled: true, Orig: "active"}, 2, 0)...)
+	ex := explore(std, depth, seedPrefixes)
+	ex = append(ex, explore(Cfg{Delay: 10, FbDelay: 12, FbEnabled: false, Orig: "standby"}, depth, seedPrefixes[:4])...)
+	ex = append(ex, explore(Cfg{Delay: 10, FbDelay: 12, FbEnabled: true, Orig: "active"}, 2, nil)...)
 	vh.Emit(cfg, "exhaustive", header, footer, ex, map[string]interface{}{"exhaustive": true,
-		"exhaustive_note": fmt.Sprintf("breadth-first over the 19-event alphabet to depth %d; a sequence is extended only when it reaches a new implementation-state fingerprint (role, state, health, timer remaining times, zombie timers, outstanding callbacks, age of the down report)", depth)})
+		"exhaustive_note": fmt.Sprintf("breadth-first over the 19-event alphabet to depth %d from the initial state and from 7 seeded deeper states; a sequence is extended only when it reaches a new implementation-state fingerprint (role, state, health, timer remaining times, zombie timers, outstanding callbacks, age of the down report)", depth)})
 	r := vh.NewRng(cfg.Seed)
 	var cases []vh.Case
 	for i := 0; i < nrand; i++ {
